@@ -7,8 +7,16 @@ from absint import State, Frame, BOT, mk_int, const_int, T
 import models
 
 
+# trace-partitioning directives: states that differ in the (constant) value of these locals are
+# never merged while the function is on the stack
+PARTITIONS = {
+    "<decode::Message as deku::DekuReader<'_>>::from_reader_with_ctx": {'bit_len'},
+}
+
+
 def make_engine(prog, **kw):
     E = A.Engine(prog, models=models.M, **kw)
+    E.partitions = dict(PARTITIONS)
     return E
 
 
